@@ -44,7 +44,7 @@ def _nontrivial(src):
 BUCKETS = ["ctor:string", "chain:", "gen:if", "gen:two-for", "gen:", "Type:contains", "Type:attr", "Type:as-fieldlist",
            "Type", "helper:field_contains", "helper:field_equals", "helper:field_regex", "helper:has_field",
            "helper:names", "helper:name", "helper:get_type", "helper:lower", "helper:upper", "func:", "ctor:net",
-           "none-valued-field", "binop:", "cmp:not in", "cmp:in", "boolop:", "literal:", "cmp:"]
+           "none-valued-field", "seq:", "binop:", "cmp:not in", "cmp:in", "boolop:", "literal:", "cmp:"]
 
 
 def bucket(feats):
@@ -60,6 +60,9 @@ def check_documented(case, ctx):
     rec = selgen.build_record(case["vals"])
     src = case["expr"]["src"]
     feats = case["expr"]["features"]
+    if selgen.touches_dropped_field(src, case["vals"]):
+        ctx.cls("undefined:missing-field-in-variant")
+        return
     ref = impl(selgen.reference_eval, src, rec)
     if not ref.ok:
         ctx.cls("undefined:" + ref.type)
@@ -89,6 +92,8 @@ def check_outside(case, ctx):
     rec = selgen.build_record(case["vals"])
     src = case["expr"]["src"]
     label = case["expr"]["outside"]
+    if selgen.touches_dropped_field(src, case["vals"]):
+        return
     ref = impl(selgen.reference_eval, src, rec)
     if not ref.ok:
         ctx.cls("undefined:" + ref.type)
